@@ -2,6 +2,7 @@
 (validator set iteration order made explicit by replacing the set with a list of the same instances),
 and compares dict form / converted queries before and after validation, validation after conversion,
 the natural set order, and two orders of all built-in validators."""
+from impl.excname import exc_name
 import json
 import random
 from pathlib import Path
@@ -96,14 +97,14 @@ def snapshot(rules, backend_cls=TextQueryTestBackend):
         try:
             d = repr(r.to_dict())
         except Exception as e:  # noqa
-            d = "EXC " + type(e).__name__
+            d = "EXC " + exc_name(e)
         if isinstance(r, SigmaCorrelationRule):
             q = "corr"
         else:
             try:
                 q = repr(backend_cls().convert_rule(r))
             except Exception as e:  # noqa
-                q = "EXC " + type(e).__name__
+                q = "EXC " + exc_name(e)
         out.append([d, q])
     return out
 
@@ -147,7 +148,7 @@ def run_coll(case):
         try:
             return multiset(canon_issues(make_validator(order_v, case).validate_rules([rs[i] for i in order_r]), rs))
         except Exception as e:  # noqa
-            return ["EXC " + type(e).__name__]
+            return ["EXC " + exc_name(e)]
     m5 = run_all(o1, r5, order)
     m6 = run_all(o2, r6, list(range(len(r6))))
     pure["all_validators_order_independent"] = m5 == m6
